@@ -153,6 +153,9 @@ def cases(tier, seed):
             yield dict(inst, target="MinFlowDecompCycles/solve-twice", cls="MinFlowDecompCycles", kw={"weight_type": "int"}, gap=gap, dev=dev, resolve=True)
     yield dict(HAND_DAG[1][0], target="MinErrorFlow/solve-twice", cls="MinErrorFlow", kw={"weight_type": "int"}, perturb=True, dev=dev, resolve=True)
     yield dict(HAND_DAG[1][0], target="MinErrorFlow+eps/solve-twice", cls="MinErrorFlow", kw={"weight_type": "int", "few_flow_values_epsilon": 0.5}, perturb=True, dev=dev, resolve=True)
+    # (a large optimum error: the second-stage objective - the number of distinct flow values - is far below it)
+    yield {"nodes": ["s", "a", "t"], "arcs": [["s", "a", 0], ["a", "t", 100]], "target": "MinErrorFlow+eps(0,100)/solve-twice", "cls": "MinErrorFlow",
+           "kw": {"weight_type": "int", "few_flow_values_epsilon": 0.5}, "dev": dev, "resolve": True}
     yield dict(HAND_DAG[1][0], target="MinPathCover/solve-twice", cls="MinPathCover", kw={}, gap=0, dev=dev, resolve=True)
     yield {"target": "MinSetCover/solve-twice", "cls": "MinSetCover", "universe": [0, 1, 2], "subsets": [[0, 1], [1, 2], [0], [2]], "weights": [2, 2, 1, 1], "dev": dev, "resolve": True}
     yield {"target": "MinSetCover", "cls": "MinSetCover", "universe": [0, 1, 2], "subsets": [[0, 1], [1, 2], [0], [2]], "weights": [2, 2, 1, 1], "dev": dev}
@@ -260,6 +263,9 @@ def run(case):
     tgt = case["target"]
     if base["exc"]:
         viol.append({"kind": "fault_free_run_failed", "msg": f"{tgt}: fault-free run: exc={base['exc']} solved={base['solved']}"})
+        return _ret(viol, nt, tags)
+    if not base["solved"] and case.get("resolve") and base.get("first_solve") == (True, True):
+        viol.append({"kind": "second_solve_loses_answer", "msg": f"{tgt}: fault-free history solve(); getters; solve(): the first solve() is optimal, after the second one the model is unsolved"})
         return _ret(viol, nt, tags)
     if not base["solved"]:
         # e.g. NumPathsOptimization whose stop rule is not met within max_num_paths: nothing to compare under faults,
